@@ -191,7 +191,9 @@ def shrink(runner, case_lines, fail_idx, kind_prefix):
             return False
         if len(cpp) < len(ls): return kind_prefix == 'crash'
         for (k, _) in compare_line(ls[-1], cpp[-1], lean[-1]):
-            if k.split(':')[0] == kind_prefix.split(':')[0]: return True
+            # a candidate that falls into the input class of a recorded finding is not a smaller instance of THIS
+            # violation: the replay would be suppressed as known and would not reproduce what is reported
+            if k.split(':')[0] == kind_prefix.split(':')[0] and not known_class(ls[-1], k): return True
         return False
     cur = case_lines[:fail_idx + 1]
     budget = 150
